@@ -4,6 +4,32 @@ Lemmas for C19.  Core Lean only (no Mathlib needed).
 -/
 namespace Ens.Masked
 
+/-! ### allocation -/
+
+theorem npEmpty_length {β} (n : Nat) (g : Nat → β) : (npEmpty n g).length = n := by
+  simp [npEmpty, tabulate]
+
+/-- overwriting every cell erases what the block held: `np.full` is the constant list -/
+theorem npFull_eq_replicate {β} (z : β) (n : Nat) (g : Nat → β) : npFull z n g = List.replicate n z := by
+  simp only [npFull, npEmpty, tabulate, List.map_map]
+  induction n with
+  | zero => rfl
+  | succ k ih =>
+    rw [List.range_succ, List.map_append, ih, List.replicate_succ']
+    rfl
+
+theorem npFull_heap_independent {β} (z : β) (n : Nat) (g1 g2 : Nat → β) : npFull z n g1 = npFull z n g2 := by
+  rw [npFull_eq_replicate, npFull_eq_replicate]
+
+/-- a constant heap: `np.empty` then shows that constant everywhere -/
+theorem npEmpty_const {β} (n : Nat) (b : β) : npEmpty n (fun _ => b) = List.replicate n b := by
+  simp only [npEmpty, tabulate]
+  induction n with
+  | zero => rfl
+  | succ k ih =>
+    rw [List.range_succ, List.map_append, ih, List.replicate_succ']
+    rfl
+
 /-! ### masked cells -/
 
 theorem maskedCells_length {α β} (f : α → β) :
@@ -137,10 +163,10 @@ theorem entropy_cells_eq_spec (lg : Rat → FV) :
           List.filter_cons_of_neg]
         rw [ih]
 
-theorem shannonEntropy_eq_spec (lg : Rat → FV) (p : List Rat) (g : List FV) :
+theorem shannonEntropy_eq_spec (lg : Rat → FV) (p : List Rat) (g : Nat → FV) :
     shannonEntropy lg p g = .ok (entropySpec lg p) := by
   unfold shannonEntropy entropyWith
-  rw [maskedApply_some_ok lg _ p _ g (by simp) (by simp)]
+  rw [npFull_eq_replicate, maskedApply_some_ok lg _ p _ _ (by simp) (by simp)]
   simp only [entropySpec]
   show Except.ok _ = Except.ok _
   rw [entropy_cells_eq_spec lg p]
@@ -179,9 +205,9 @@ theorem entropy_cells_nan (lg : Rat → FV) :
         exact List.mem_cons_self
 
 theorem shannonEntropyNoOut_nan (lg : Rat → FV) (p : List Rat) (h : ∃ x ∈ p, ¬ 0 < x) :
-    shannonEntropyNoOut lg p (List.replicate p.length none) = .ok none := by
+    shannonEntropyNoOut lg p (fun _ => none) = .ok none := by
   unfold shannonEntropyNoOut entropyWith
-  rw [maskedApply_none_ok lg _ p _ (by simp) (by simp)]
+  rw [npEmpty_const, maskedApply_none_ok lg _ p _ (by simp) (by simp)]
   show Except.ok _ = Except.ok _
   rw [FV.sum_none_of_mem _ (entropy_cells_nan lg p h)]
   rfl
@@ -232,24 +258,6 @@ theorem kernelGuard_congr (X : List (List Rat)) (ncols : Nat) (y o1 o2 : List Ra
     (h : o1.length = o2.length) : kernelGuard X ncols y o1 = kernelGuard X ncols y o2 := by
   simp [kernelGuard, h]
 
-theorem prepare_none_length (X : List (List Rat)) (ncols : Nat) (y : List Rat) (o : List Rat)
-    (h : prepare X ncols y none = .ok o) : o.length = X.length := by
-  unfold prepare at h
-  split at h
-  · cases h
-  · cases h; simp
-
-theorem prepare_some (X : List (List Rat)) (ncols : Nat) (y o1 o2 : List Rat)
-    (h : o1.length = o2.length) :
-    (prepare X ncols y (some o1)).map List.length = (prepare X ncols y (some o2)).map List.length := by
-  unfold prepare
-  by_cases hc : ncols ≠ y.length
-  · simp [hc]
-  · simp only [hc, if_false, h]
-    by_cases hl : o2.length ≠ X.length
-    · simp [hl]
-    · simp only [hl, if_false]; simp [Except.map, h]
-
 theorem manhattanKernel_congr (X : List (List Rat)) (ncols : Nat) (y o1 o2 : List Rat)
     (h : o1.length = o2.length) : manhattanKernel X ncols y o1 = manhattanKernel X ncols y o2 := by
   simp only [manhattanKernel, kernelGuard_congr X ncols y o1 o2 h, zeroed_congr o1 o2 h]
@@ -267,8 +275,9 @@ theorem hammingKernel_congr (X : List (List Rat)) (ncols : Nat) (y o1 o2 : List 
 agrees with the call without `out` when the length is right -/
 theorem wrapper_congr {γ} (k : List Rat → Except Err γ)
     (hk : ∀ o1 o2 : List Rat, o1.length = o2.length → k o1 = k o2)
-    (X : List (List Rat)) (ncols : Nat) (y o1 o2 : List Rat) (h : o1.length = o2.length) :
-    (prepare X ncols y (some o1) >>= k) = (prepare X ncols y (some o2) >>= k) := by
+    (X : List (List Rat)) (ncols : Nat) (y o1 o2 : List Rat) (g1 g2 : Nat → Rat)
+    (h : o1.length = o2.length) :
+    (prepare X ncols y (some o1) g1 >>= k) = (prepare X ncols y (some o2) g2 >>= k) := by
   unfold prepare
   by_cases hc : ncols ≠ y.length
   · simp [hc]
@@ -280,20 +289,29 @@ theorem wrapper_congr {γ} (k : List Rat → Except Err γ)
 
 theorem wrapper_none {γ} (k : List Rat → Except Err γ)
     (hk : ∀ o1 o2 : List Rat, o1.length = o2.length → k o1 = k o2)
-    (X : List (List Rat)) (ncols : Nat) (y o : List Rat) (h : o.length = X.length) :
-    (prepare X ncols y (some o) >>= k) = (prepare X ncols y none >>= k) := by
+    (X : List (List Rat)) (ncols : Nat) (y o : List Rat) (g1 g2 : Nat → Rat) (h : o.length = X.length) :
+    (prepare X ncols y (some o) g1 >>= k) = (prepare X ncols y none g2 >>= k) := by
   unfold prepare
   by_cases hc : ncols ≠ y.length
   · simp [hc]
   · have hl : ¬ o.length ≠ X.length := by simp [h]
     simp only [hc, hl, if_false]
-    show k o = k (List.replicate X.length 0)
-    exact hk _ _ (by simp [h])
+    show k o = k (npFull 0 X.length g2)
+    exact hk _ _ (by simp [h, npFull_eq_replicate])
+
+/-- without `out`: the block `np.zeros` received is irrelevant -/
+theorem wrapper_fresh {γ} (k : List Rat → Except Err γ)
+    (X : List (List Rat)) (ncols : Nat) (y : List Rat) (g1 g2 : Nat → Rat) :
+    (prepare X ncols y none g1 >>= k) = (prepare X ncols y none g2 >>= k) := by
+  unfold prepare
+  rw [npFull_heap_independent 0 X.length g1 g2]
 
 /-! ### libinfo -/
 
-theorem bincountFrom_zero (a b : List (List Int)) (fa fb i j : Nat) :
-    bincountFrom (fun _ _ _ _ => 0) a b fa fb i j = pairCount (column a fa) (column b fb) i j := by
-  simp [bincountFrom]
+theorem matrixBincount2d_heap_independent (a : List (List Int)) (fa : Nat) (b : List (List Int))
+    (fb na nb : Nat) (g1 g2 : Nat → Nat) :
+    matrixBincount2d a fa b fb na nb g1 = matrixBincount2d a fa b fb na nb g2 := by
+  unfold matrixBincount2d
+  rw [npFull_heap_independent 0 _ g1 g2]
 
 end Ens.Masked
